@@ -404,6 +404,11 @@ where
             let root = &commitment.root;
             let t = calculate_t::<F>(vk.sec_param(), vk.distance(), n_ext_cols)?;
 
+            // The opened combinations of rows are messages of the code: one entry per column.
+            if proof.opening.v.len() != n_cols {
+                return Err(Error::InvalidCommitment);
+            }
+
             sponge.absorb(&to_bytes!(&commitment.root).map_err(|_| Error::TranscriptError)?);
 
             let out = if vk.check_well_formedness() {
@@ -412,6 +417,9 @@ where
                 }
                 let tmp = &proof.well_formedness.as_ref();
                 let v = tmp.unwrap();
+                if v.len() != n_cols {
+                    return Err(Error::InvalidCommitment);
+                }
                 let r = sponge.squeeze_field_elements::<F>(n_rows);
                 // Upon sending `v` to the Verifier, add it to the sponge. The claim is that v = r.M.
                 sponge.absorb(&v);
